@@ -173,6 +173,11 @@ func (s *server) onAccept(conn Conn) {
 		return nil
 	})
 	s.connections.Store(fd, nconn)
+	// the connection may have been closed (by another poller) before the callback above was added,
+	// then nobody is left to remove it from the map.
+	if !nconn.IsActive() {
+		s.connections.Delete(fd)
+	}
 
 	// trigger onConnect asynchronously
 	nconn.onConnect()
